@@ -239,6 +239,7 @@ theorem op_inv (w : W) (d : Option Int) (o : Op) (hi : Inv w) : Inv (w.op d o).1
   | raiseStatus s => exact hi
   | raiseExc => exact hi
   | raiseBoom => exact hi
+  | raiseOf e => exact hi
 
 theorem runScript_inv (sc : List Step) : ∀ (w : W) (log : List (Option Exc)), Inv w →
     Inv (runScript w sc log).1 := by
@@ -776,6 +777,7 @@ theorem op_sane (b : Bool) (w : W) (d : Option Int) (o : Op) (h : SaneB b w) : S
   | raiseStatus s => exact h
   | raiseExc => exact h
   | raiseBoom => exact h
+  | raiseOf e => exact h
 
 theorem runScript_sane (b : Bool) (sc : List Step) : ∀ (w : W) (log : List (Option Exc)), SaneB b w →
     SaneB b (runScript w sc log).1 := by
@@ -871,4 +873,30 @@ theorem rejectFirst_reason (w : W) (h0 : w.sent = []) (hf : w.failAt = none) :
     (rejectFirst w).sent = [(.close 1011 w.supReason, true)] := by
   simp [rejectFirst, W.asgiSend, h0, hf]
 
+/-- **the class of an exception says nothing about the handled connection**: a script step that raises ANY exception which is not an
+    HTTPError/HTTPStatus - in particular `WebSocketDisconnected(code)` raised by hand or by an operation on another connection's socket,
+    `OperationNotAllowed`, `PayloadTypeError`, `ValueError`, `OSError` - and does not catch it, on a socket that is not closed, with no
+    observed disconnect, the default handlers and a working server send: the framework sends exactly one close event with
+    `error_close_code` (3011 if that is not a valid code) and nothing escapes. In the handshake state that close is the 403 denial. -/
+theorem raised_error_closes_open_socket (c : Cfg) (w : W) (e : Exc) (d : Option Int) (hfd : c.fd = none) (hcu : c.custom = none)
+    (he : (∀ s, e ≠ .httpError s) ∧ (∀ s, e ≠ .httpStatus s)) (hnc : w.st ≠ .closed) (hf : w.failAt = none) :
+    let code := if validCode w.errCloseCode then w.errCloseCode else 3011
+    (handle c w (some [(.raiseOf e, .none, d)])).w.sent = w.sent ++ [(.close code (w.reasonCodes.contains code && w.supReason), true)]
+    ∧ (handle c w (some [(.raiseOf e, .none, d)])).esc = none := by
+  have key := unexpected_error_close_code c w e hfd hcu he hnc hf
+  simp only [handle, runScript, W.op, Catch.catches, Bool.false_eq_true, if_false]
+  exact key
+
+/-- the hypotheses are satisfiable by the relay scenario: connection A is accepted and connected, its responder forwards to connection B,
+    whose client has left with code 1001 -/
+example :
+    let w : W := { st := .accepted, supHeaders := true, supReason := true, reasonCodes := [1011], errCloseCode := 1011,
+                   binMediaOk := false, sent := [(.accept false false, true)], failAt := none, inbox := [] }
+    (handle {} w (some [(.raiseOf (.disconnected 1001), .none, none)])).w.sent = [(.accept false false, true), (.close 1011 true, true)] := by decide
+
+/-- and before accept the same exception yields the denial -/
+example :
+    let w : W := { supHeaders := true, supReason := false, reasonCodes := [], errCloseCode := 4444,
+                   binMediaOk := false, failAt := none, inbox := [] }
+    (handle {} w (some [(.raiseOf (.disconnected 1000), .none, none)])).w.sent = [(.close 4444 false, true)] := by decide
 end Ws
